@@ -1,9 +1,15 @@
 import Grexv.Model.RegExp
 import Grexv.Lemmas.Lines
 import Grexv.Lemmas.Presentation
+import Grexv.Lemmas.EndToEnd
 
 /-!
-# C08 — anchor options (text level): `^` / `$` are emitted exactly by the two anchor components
+# C08 — anchor options
+
+Text level: `^` / `$` are emitted exactly by the two anchor components.  Language level (`one_anchor_same_language`):
+disabling the start anchor or the end anchor does not change which strings are matched in full — for the model, all
+inputs, every subset of the class options, with or without capturing groups, `-e` and `-i`.  With both anchors disabled
+`RegExp::from` runs its self-check (S10); what the search then returns is decided per input (known finding D8).
 -/
 set_option linter.unusedSimpArgs false
 set_option linter.unusedVariables false
@@ -88,5 +94,37 @@ theorem final_body_same_when_anchored {c1 c2 : Config} (h : SameButAnchors c1 c2
 /-- non-vacuity: two such configurations -/
 example : SameButAnchors { noStart := true, verb := true } { noEnd := true, verb := true } := by
   simp [SameButAnchors]
+
+/-- **C08 (language level) for the model, all inputs** the pattern printed with one anchor disabled is accepted by the
+model of `Regex::new` (the body can never be mistaken for a flag group: `Expr.safe`) and matches in full exactly the
+strings the fully anchored pattern matches -/
+theorem one_anchor_same_language (cfg : Config) (hp : PlainPrintCI cfg) (ns ne : Bool) (hns : (ns && ne) = false)
+    (env : Env) (ws : List Str) (stA st0 : Stages)
+    (hA : regExpFrom (withAnchors cfg ns ne) env ws = .ok stA) (h0 : regExpFrom (withAnchors cfg false false) env ws = .ok st0)
+    (hseg : ∀ w ∈ storedCases cfg env ws, SegOK env w) (hne : ∃ t ∈ storedCases cfg env ws, t ≠ [])
+    (s : Str) (hs : ∀ c ∈ s, Scalar c) :
+    ∃ PA P0, Spec.parse (fmtRegExp (withAnchors cfg ns ne) stA.finalAst) = some (⟨cfg.ci, false⟩, PA) ∧
+      Spec.parse (fmtRegExp (withAnchors cfg false false) st0.finalAst) = some (⟨cfg.ci, false⟩, P0) ∧
+      Spec.fullMatch cfg.ci PA s = Spec.fullMatch cfg.ci P0 s :=
+  anchors_same_language cfg hp ns ne hns env ws stA st0 hA h0 hseg hne s hs
+
+/-- **C08 (language level, every anchor setting, all inputs)** also with both anchors disabled — where `RegExp::from`
+compiles its first candidate, checks it against the test cases and may fall back to the expression of the unminimised trie
+or to the plain alternation — the returned text is accepted by the model of `Regex::new`, matches in full nothing but
+(generalised) test cases, and matches every non-empty one -/
+theorem any_anchor_bounds (cfg : Config) (hp : PlainPrintNA cfg) (env : Env) (ws : List Str) (st : Stages)
+    (h : regExpFrom cfg env ws = .ok st) (hseg : ∀ w ∈ storedCases cfg env ws, SegOK env w)
+    (hne : ∃ t ∈ storedCases cfg env ws, t ≠ []) (s : Str) (hs : ∀ c ∈ s, Scalar c) :
+    ∃ P, Spec.parse (fmtRegExp cfg st.finalAst) = some (⟨cfg.ci, false⟩, P) ∧
+      (Spec.fullMatch cfg.ci P s = true → ∃ t ∈ storedCases cfg env ws, atomsDen cfg.ci (t.map (convAtom cfg)) s) ∧
+      (∀ t ∈ storedCases cfg env ws, t ≠ [] → atomsDen cfg.ci (t.map (convAtom cfg)) s →
+        Spec.fullMatch cfg.ci P s = true) :=
+  classes_bounds_any_anchor cfg hp env ws st h hseg hne s hs
+
+/-- the text between the anchors is read by the regex parser as the same items whatever anchors surround it -/
+theorem printed_items_independent_of_anchors (cap esc ns ne : Bool) (e : Expr) (hwf : e.WF) :
+    Spec.parse (fmtRegExp (cfgAnch cap esc ns ne) e) =
+      some (⟨false, false⟩, Spec.catList (preA ns ++ (topItems cap esc e ++ postA ne))) :=
+  parse_printedA cap esc ns ne e hwf
 
 end Grexv.Props.C08
